@@ -189,6 +189,48 @@ def enum_roundtrips(ctx: Ctx, eng: morph.Engine, n: int):
                 roundtrip(ctx, eng, sp, x, key, via_json=False)
 
 
+def self_models(ctx: Ctx, eng: morph.Engine, n: int):
+    """models recursive through `typing.Self` (Optional[Self], list[Self], dict[str, Self]) used as the top-level type AND nested
+    inside other models - directly, in a list, Optional or dict field, with the same or a different field structure as the outer
+    model - with the Self links really set, to depth 1..3"""
+    import dataclasses
+    from typing import Optional, Self
+    rng = ctx.rng
+    for i in range(n):
+        link = rng.choice(["optional", "optional", "list", "dict"])
+        link_hint = {"optional": Optional[Self], "list": list[Self], "dict": dict[str, Self]}[link]
+        empty = {"optional": None, "list": [], "dict": {}}[link]
+        same_structure = rng.random() < 0.4
+        inner_fields = [("name", str), ("link", link_hint, dataclasses.field(default=None) if link == "optional"
+                         else dataclasses.field(default_factory=type(empty)))]
+        Inner = dataclasses.make_dataclass(f"SelfInner{i}", inner_fields)
+        Inner.__module__ = __name__
+        holder = rng.choice(["direct", "list", "optional", "dict"])
+        held_hint = {"direct": Inner, "list": list[Inner], "optional": Optional[Inner], "dict": dict[str, Inner]}[holder]
+        if same_structure and holder in ("direct", "optional"):
+            outer_fields = [("name", str), ("link", held_hint)]
+        else:
+            outer_fields = [("title", str), ("held", held_hint), ("n", int, dataclasses.field(default=0))]
+        Outer = dataclasses.make_dataclass(f"SelfOuter{i}", outer_fields)
+        Outer.__module__ = __name__
+
+        def mk_inner(depth):
+            if depth == 0:
+                return Inner(name="leaf")
+            sub = mk_inner(depth - 1)
+            return Inner(name=f"d{depth}", link={"optional": sub, "list": [sub, mk_inner(0)], "dict": {"k": sub}}[link])
+        depth = rng.choice([0, 1, 2, 3])
+        inner = mk_inner(depth)
+        held = {"direct": inner, "list": [inner, mk_inner(1)], "optional": inner, "dict": {"a": inner}}[holder]
+        outer = Outer(*([f"o{i}", held]))
+        for hint, x, where in ((Inner, inner, "top-level"), (Outer, outer, f"nested-{holder}")):
+            sp = morph.Spec(hint=hint, ty=["self-model"], gen=None, kind="model")
+            ctx.note_case({"self": link, "where": where, "depth": depth, "same": same_structure}, nontrivial=depth > 0,
+                          kind=f"roundtrip:self-model:{where}:{'linked' if depth else 'unlinked'}")
+            for key in morph.CONFIGS[::2] if ctx.tier == "quick" else morph.CONFIGS:
+                roundtrip(ctx, eng, sp, x, key, via_json=True)
+
+
 def _same_enum_value(a, b) -> bool:
     try:
         return bool(a == b)
@@ -310,7 +352,7 @@ def optional_models(ctx: Ctx, eng: morph.Engine, n: int):
 def run(ctx: Ctx):
     eng = morph.Engine(ctx)
     optional_models(ctx, eng, ctx.budget(25, 600))
-    specs = eng.gen_specs(ctx.budget(160, 2500), 3 if ctx.tier == "quick" else 4)
+    specs = eng.gen_specs(ctx.budget(160, 2500), 3 if ctx.tier == "quick" else 4, literal_unions=True)
     # correspondences of the model the theorem is about
     drecs = eng.dump_records(specs, suite="dump", n_values=2)
     recs = eng.load_records(specs, suite="load", n_valid=2, n_corrupt=1, n_hostile=0)
@@ -339,6 +381,7 @@ def run(ctx: Ctx):
     timedelta_sweep(ctx, eng, ctx.budget(3000, 200000))
     name_mapping_roundtrips(ctx, ctx.budget(150, 3000))
     enum_roundtrips(ctx, eng, ctx.budget(60, 1200))
+    self_models(ctx, eng, ctx.budget(40, 600))
 
 
 def search(ctx: Ctx):
@@ -346,7 +389,8 @@ def search(ctx: Ctx):
     eng.drv = None
     optional_models(ctx, eng, 300)
     enum_roundtrips(ctx, eng, 600)
-    for spec in eng.gen_specs(2000, 4):
+    self_models(ctx, eng, 300)
+    for spec in eng.gen_specs(2000, 4, literal_unions=True):
         if eng.real.dump("DISABLE", True, spec.hint, None).get("r") == "no-dumper":
             continue
         for _ in range(3):
